@@ -71,12 +71,13 @@ PROPS = {
         explanation='Grant/refuse contract proved; release/cleanup/wait-graph/cycle detection bounded.',
     ),
     'C04': dict(
-        v=['C04_sortkey'], k=[('relational_engine', ['c04_ordfloat_total_order', 'c04_ordfloat_eq_implies_cmp_equal',
+        v=['C04_sortkey', 'C04_simd'], k=[('relational_engine', ['c04_ordfloat_total_order', 'c04_ordfloat_eq_implies_cmp_equal',
                                                      'c04_float_sort_key_monotone', 'c04_float_sort_key_roundtrip'])], b=['c04_relq'],
+        pairs={'C04_simd': ['bounded:c04_relq']},
         level='other',
-        technique='Kani full-domain harnesses on the OrderedFloat comparator and on the float index-key statements pasted from the real functions; Verus on the extracted integer index-key arithmetic',
-        claim='the btree key comparator is a total order on all f64 bit patterns; the persisted float index key is strictly monotone and decodes back to the value for EVERY f64 bit pattern (Kani, complete); the integer key is an order isomorphism with exact inverse for all i64 (Verus)',
-        explanation='Comparator kernel proved; query strategies are checked by the bounded sets.',
+        technique='Kani full-domain harnesses on the OrderedFloat comparator and on the float index-key statements pasted from the real functions; Verus on the extracted integer index-key arithmetic and on the six extracted vectorised integer filters simd::filter_{lt,le,gt,ge,eq,ne}_i64 (bitmap bit k set iff it was set or row k satisfies the comparison, for every threshold and every length; wide::i64x4 lane operations by assumed contract)',
+        claim='the btree key comparator is a total order on all f64 bit patterns; the persisted float index key is strictly monotone and decodes back to the value for EVERY f64 bit pattern (Kani, complete); the integer key is an order isomorphism with exact inverse for all i64 (Verus); the vectorised integer filters select exactly the matching rows for all inputs (Verus; float filters bounded only)',
+        explanation='Comparator kernel and vectorised integer filters proved; the other query strategies are checked by the bounded sets.',
     ),
     'C06': dict(
         v=['C06_sparse'], k=[], b=['c06_search'],
